@@ -16,9 +16,12 @@ RULE = ('expiry-centred histories (populations of 1/99/100/101/250 items on one 
         'ttl (set/add/incr), the others only remove expired items (peekitem, peek, expire, cull, lazily culling '
         'writes, lookups); no lookup may return an expired value and afterwards every key with a completed permanent '
         'write must be present with a written value, every other key absent; distinct schedule traces with a '
-        'preemption inside an operation are counted')
-DISTINCT = ('cells', 'expire_scenarios', 'concurrent_schedules_with_preemption')
-REQUIRED = ('calls_judged', 'concurrent_programs', 'concurrent_rewrites_of_expired_rows', 'expire_calls_over_one_page', 'lookups_of_expired_items', 'lookups_of_live_items',
+        'preemption inside an operation are counted. Timed queue tier: producers/consumers of one queue whose items carry '
+        'ttls of a few clock ticks; the history must be linearizable against a deque model in which every call takes '
+        'effect at one instant of its own [call, return] clock window and an item is deliverable only up to its expiry '
+        'instant')
+DISTINCT = ('cells', 'expire_scenarios', 'concurrent_schedules_with_preemption', 'schedules')
+REQUIRED = ('calls_judged', 'concurrent_programs', 'timed_schedules_checked', 'concurrent_rewrites_of_expired_rows', 'expire_calls_over_one_page', 'lookups_of_expired_items', 'lookups_of_live_items',
             'lazy_cull_writes', 'fanout_histories', 'cache_histories', 'shared_instant_batches')
 ASSUMPTIONS = ('virtual clock replaces time.time inside diskcache.core and diskcache.fanout',
                'expiry instants are positive (ttl >= -1e6 s at epoch 1.7e9): non-positive instants are outside the domain',
@@ -300,6 +303,13 @@ def run_shard(tier, seed, shard, nshards, res):
         for i in range(60 if tier == 'quick' else 600):
             rng = common.rng_for(seed, 'c04c', shard, i)
             concurrent(dc, sc, res, rng, 'c04 concurrent seed=%d shard=%d i=%d' % (seed, shard, i))
+            if res.counters.get('violations_raw', 0) > 10:
+                return
+        # "never pulled as a live item" while calls are in flight: the timed queue histories of C10, judged here too
+        from . import c10 as queues
+        for i in range(40 if tier == 'quick' else 500):
+            rng = common.rng_for(seed, 'c04t', shard, i)
+            queues.timed_schedule(dc, sc, res, rng, 'c04 timed queue schedule seed=%d shard=%d i=%d' % (seed, shard, i))
             if res.counters.get('violations_raw', 0) > 10:
                 return
     with common.Scratch() as sc:
